@@ -894,6 +894,24 @@ def json_from_str(ctx, args, ci, dt):
     return err(Opaque('serde_json::Error'))
 
 
+JSON_QUOTE = z3.Function('json_quote', A, A)
+
+
+def json_to_string(ctx, args, ci, dt):
+    """serde_json::to_string(&String): the JSON string literal of the text (injective); cannot fail"""
+    v = deref(args[0])
+    if isinstance(v, S):
+        if v.seq is not None or getattr(ctx, 'json_quote_exact', False):
+            return ok(json_quote_seq(ctx, v))
+        ctx.assumptions.add('serde_json::to_string on a String is an injective uninterpreted function (atom mode)')
+        return ok(S(atom=JSON_QUOTE(v.as_atom()), text=True))
+    raise ctx_unsupported('serde_json::to_string of %r' % (v,))
+
+
+def json_quote_seq(ctx, v):
+    raise ctx_unsupported('exact JSON quoting not installed')
+
+
 def json_as_object(ctx, args, ci, dt):
     v = deref(args[0])
     if v.tag == 'json':
@@ -1027,48 +1045,141 @@ def hash_as_bytes(ctx, args, ci, dt):
 CHRONO_MIN = -8334601228800000      # measured natively (hooks: verif_chrono_range)
 CHRONO_MAX = 8210266876799999
 DAY_MS = 86400000
-DAYFN = z3.Function('utc_day', z3.BitVecSort(64), z3.BitVecSort(64))
+REMDAY = z3.Function('rem_euclid_day', z3.BitVecSort(64), z3.BitVecSort(64))   # x.rem_euclid(86_400_000), axiomatised lazily
 
 
-def day_exact(x):
-    """floor to UTC midnight, exact bit-vector semantics (valid on the chrono range)"""
-    return x - (x % z3.BitVecVal(DAY_MS, 64))
+def DAYFN(x):
+    """start of the UTC day containing x (floor), as the term x - rem_euclid(x, DAY)"""
+    return x - REMDAY(x)
 
 
-def stub_date(ctx, args, ci, dt):
-    d = args[0]
-    ctx.assumptions.add('chrono: date(ms) = floor to UTC midnight for ms in [%d, %d], panic (unwrap on None) outside; boundaries measured natively' % (CHRONO_MIN, CHRONO_MAX))
-    if d.concrete:
-        if not (CHRONO_MIN <= d.v <= CHRONO_MAX):
-            raise panic('date(): DateTime::from_timestamp_millis(..).unwrap() on an out-of-range date', 'date_utils::date')
-        return Int(64, True, d.v - d.v % DAY_MS)
-    inr = z3.And(d.v >= CHRONO_MIN, d.v <= CHRONO_MAX)
-    if getattr(ctx, 'dates_in_range', False):
-        ctx.add(inr)
-    elif not ctx.branch(inr):
-        raise panic('date(): DateTime::from_timestamp_millis(..).unwrap() on an out-of-range date', 'date_utils::date')
-    ctx.day_terms.append(d.v)
-    return Int(64, True, DAYFN(d.v))
-
-
-def stub_date_next_day(ctx, args, ci, dt):
-    d = args[0]
-    if d.concrete:
-        if not (CHRONO_MIN <= d.v <= CHRONO_MAX - DAY_MS):
-            raise panic('date_next_day(): out-of-range date', 'date_utils::date_next_day')
-        return Int(64, True, d.v - d.v % DAY_MS + DAY_MS)
-    inr = z3.And(d.v >= CHRONO_MIN, d.v <= CHRONO_MAX - DAY_MS)
-    if getattr(ctx, 'dates_in_range', False):
-        ctx.add(inr)
-    elif not ctx.branch(inr):
-        raise panic('date_next_day(): out-of-range date', 'date_utils::date_next_day')
-    ctx.day_terms.append(d.v)
-    return Int(64, True, DAYFN(d.v) + DAY_MS)
+def rem_day(ctx, x):
+    """the term REMDAY(x) with its range constraint; exact definition is added by day_axioms()"""
+    r = REMDAY(x)
+    ctx.add(z3.And(r >= 0, r < DAY_MS))
+    if not any(t.eq(x) for t in ctx.day_terms):
+        ctx.day_terms.append(x)
+    return r
 
 
 def day_axioms(ctx):
-    """exact definition of utc_day on every term it was applied to on this path"""
-    return [DAYFN(t) == day_exact(t) for t in ctx.day_terms]
+    """exact definition of rem_euclid(., DAY) on every term it was applied to on this path"""
+    return [REMDAY(t) == (t % z3.BitVecVal(DAY_MS, 64)) for t in ctx.day_terms]
+
+
+def _dt(ctx, ms):
+    return Opaque('datetime', ms)
+
+
+def chrono_from_timestamp_millis(ctx, args, ci, dt):
+    d = args[0]
+    ctx.assumptions.add('chrono: DateTime::from_timestamp_millis(ms) is Some exactly for ms in [%d, %d] (measured natively); '
+                        'date_naive().and_hms_opt(0,0,0).and_utc().timestamp_millis() is the floor to the UTC day' % (CHRONO_MIN, CHRONO_MAX))
+    if d.concrete:
+        return some(_dt(ctx, d)) if CHRONO_MIN <= d.v <= CHRONO_MAX else none()
+    inr = z3.And(d.v >= CHRONO_MIN, d.v <= CHRONO_MAX)
+    if getattr(ctx, 'dates_in_range', False):
+        ctx.add(inr)
+        return some(_dt(ctx, d))
+    if ctx.branch(inr):
+        return some(_dt(ctx, d))
+    return none()
+
+
+def chrono_date_naive(ctx, args, ci, dt):
+    d = deref(args[0]).data
+    if d.concrete:
+        return Opaque('naivedate', Int(64, True, d.v - d.v % DAY_MS))
+    return Opaque('naivedate', Int(64, True, d.v - rem_day(ctx, d.v)))
+
+
+def chrono_and_hms_opt(ctx, args, ci, dt):
+    nd = deref(args[0])
+    h, m_, s_ = args[1], args[2], args[3]
+    if not (h.concrete and m_.concrete and s_.concrete and h.v == 0 and m_.v == 0 and s_.v == 0):
+        raise ctx_unsupported('and_hms_opt with a non-midnight time')
+    return some(Opaque('naivedatetime', nd.data))
+
+
+def chrono_and_utc(ctx, args, ci, dt):
+    return Opaque('datetime', deref(args[0]).data)
+
+
+def chrono_timestamp_millis(ctx, args, ci, dt):
+    return deref(args[0]).data
+
+
+def chrono_days(ctx, args, ci, dt):
+    n = args[0]
+    if not n.concrete:
+        raise ctx_unsupported('TimeDelta::days of a symbolic count')
+    return Opaque('timedelta', n.v * DAY_MS)
+
+
+def chrono_add(ctx, args, ci, dt):
+    d = deref(args[0]).data
+    delta = deref(args[1]).data
+    if d.concrete:
+        r = d.v + delta
+        if not (CHRONO_MIN <= r <= CHRONO_MAX):
+            raise panic('`DateTime + TimeDelta` overflowed', 'chrono')
+        return _dt(ctx, Int(64, True, r))
+    r = d.v + z3.BitVecVal(delta, 64)
+    inr = z3.And(r >= CHRONO_MIN, r <= CHRONO_MAX, z3.BVAddNoOverflow(d.v, z3.BitVecVal(delta, 64), True))
+    if getattr(ctx, 'dates_in_range', False):
+        ctx.add(inr)
+    elif not ctx.branch(inr):
+        raise panic('`DateTime + TimeDelta` overflowed', 'chrono')
+    return _dt(ctx, Int(64, True, r))
+
+
+def int_rem_euclid(ctx, args, ci, dt):
+    a, b = args
+    if a.concrete and b.concrete:
+        if b.v == 0:
+            raise panic('attempt to calculate the remainder with a divisor of zero')
+        return Int(a.bits, a.signed, a.v % abs(b.v))
+    if b.concrete and b.v == DAY_MS and a.bits == 64:
+        return Int(64, True, rem_day(ctx, a.z()))
+    if b.concrete and b.v > 0:
+        return Int(a.bits, a.signed, a.z() % b.z())
+    raise ctx_unsupported('rem_euclid with a symbolic divisor')
+
+
+def int_div_euclid(ctx, args, ci, dt):
+    a, b = args
+    if a.concrete and b.concrete:
+        if b.v == 0:
+            raise panic('attempt to divide by zero')
+        return Int(a.bits, a.signed, a.v // b.v if b.v > 0 else -(a.v // -b.v))
+    if b.concrete and b.v == DAY_MS and a.bits == 64:
+        # (a - rem) / DAY is exact
+        r = rem_day(ctx, a.z())
+        return Int(64, True, (a.z() - r) / z3.BitVecVal(DAY_MS, 64))
+    raise ctx_unsupported('div_euclid')
+
+
+def int_saturating(op):
+    def f(ctx, args, ci, dt):
+        a, b = args
+        bits = a.bits
+        lo, hi = (-(1 << (bits - 1)), (1 << (bits - 1)) - 1) if a.signed else (0, (1 << bits) - 1)
+        if a.concrete and b.concrete:
+            r = a.v + b.v if op == 'add' else a.v - b.v
+            return Int(bits, a.signed, max(lo, min(hi, r)))
+        x, y = a.z(), b.z()
+        if not a.signed:
+            raise ctx_unsupported('unsigned saturating op on symbolic values')
+        if op == 'add':
+            r = x + y
+            ovf = z3.Not(z3.BVAddNoOverflow(x, y, True))
+            udf = z3.Not(z3.BVAddNoUnderflow(x, y))
+        else:
+            r = x - y
+            ovf = z3.Not(z3.BVSubNoOverflow(x, y))
+            udf = z3.Not(z3.BVSubNoUnderflow(x, y, True))
+        return Int(bits, True, z3.If(ovf, z3.BitVecVal(hi, bits), z3.If(udf, z3.BitVecVal(lo, bits), r)))
+    return f
 
 
 # ------------------------------------------------------------------------------ rusqlite as a may-fail no-op
@@ -1428,6 +1539,7 @@ def install(ctx):
     M['Entry::or_default'] = hm_or_default
     M['Entry::or_insert'] = hm_or_insert
     M['serde_json::from_str'] = json_from_str
+    M['serde_json::to_string'] = json_to_string
     M['Value::as_object'] = json_as_object
     M['Map::get'] = json_map_get
     M['Value::as_str'] = json_as_str
@@ -1486,7 +1598,16 @@ def install(ctx):
     St['<impl SigningKey as SigningKey>::sign'] = stub_sign
     St['<Ed25519SigningKey as SigningKey>::sign'] = stub_sign
     St['bincode::serialized_size'] = stub_serialized_size
-    St['fn:date_utils::date'] = stub_date
-    St['fn:date'] = stub_date
-    St['fn:date_next_day'] = stub_date_next_day
-    St['fn:date_utils::date_next_day'] = stub_date_next_day
+    M['DateTime::from_timestamp_millis'] = chrono_from_timestamp_millis
+    M['DateTime::date_naive'] = chrono_date_naive
+    M['NaiveDate::and_hms_opt'] = chrono_and_hms_opt
+    M['NaiveDateTime::and_utc'] = chrono_and_utc
+    M['DateTime::timestamp_millis'] = chrono_timestamp_millis
+    M['TimeDelta::days'] = chrono_days
+    M['Duration::days'] = chrono_days
+    M['<DateTime as Add>::add'] = chrono_add
+    for t in ('i64',):
+        M[t + '::rem_euclid'] = int_rem_euclid
+        M[t + '::div_euclid'] = int_div_euclid
+        M[t + '::saturating_add'] = int_saturating('add')
+        M[t + '::saturating_sub'] = int_saturating('sub')
